@@ -91,7 +91,13 @@ type World struct {
 	fetcher *scanner.Fetcher
 	scan    *scanner.Scanner
 
+	run      func()         // the call into the code under test
+	doneCh   chan struct{}  // timed mode: closed when run returns
+	tocc     map[string]int // timed mode: occurrences per seam key
+	prepDone time.Duration  // timed mode: fake time at which Prepare's GetSTH returns
+
 	// written by goroutines of the code under test, harvested by the driver
+	// (timed mode: everything below is only touched with mu held)
 	mu      sync.Mutex
 	pending []delivery
 	done    bool
@@ -250,6 +256,12 @@ func (w *World) Init(s *kernel.Sim) {
 	w.seen = map[string]bool{}
 	w.ctx, w.cancel = context.WithCancel(context.Background())
 
+	if s.Timed { // real parallelism is the point of timed mode
+		p.Par = max(p.Par, 2)
+		if w.mode.Scanner {
+			p.NumWorkers = max(p.NumWorkers, 2)
+		}
+	}
 	fo := scanner.FetcherOptions{BatchSize: p.Batch, ParallelFetch: p.Par, StartIndex: p.Start, EndIndex: p.End, Continuous: p.Continuous}
 	names := make([]string, len(p.Order))
 	for i, id := range p.Order {
@@ -264,12 +276,12 @@ func (w *World) Init(s *kernel.Sim) {
 	for _, k := range keys {
 		fs += fmt.Sprintf(" %s=%d", k, p.Fault[k])
 	}
-	s.Logf("profile scanner=%v batch=%d par=%d start=%d end=%d cont=%v size0=%d max=%d grows=%d order=%v stop=%v cancel=%v noise=%v faults:%s",
+	w.logf("profile scanner=%v batch=%d par=%d start=%d end=%d cont=%v size0=%d max=%d grows=%d order=%v stop=%v cancel=%v noise=%v faults:%s",
 		w.mode.Scanner, p.Batch, p.Par, p.Start, p.End, p.Continuous, p.Size0, p.MaxSize, p.Grows, names, p.AllowStop, p.AllowCancel, p.ClockNoise, fs)
 	if w.mode.Scanner {
-		s.Logf("scanner workers=%d buffer=%d precertOnly=%v scan=%v matcher=%s", p.NumWorkers, p.BufferSize, p.PrecertOnly, p.UseScan, w.match.Desc)
+		w.logf("scanner workers=%d buffer=%d precertOnly=%v scan=%v matcher=%s", p.NumWorkers, p.BufferSize, p.PrecertOnly, p.UseScan, w.match.Desc)
 		w.scan = scanner.NewScanner(w.log, scanner.ScannerOptions{FetcherOptions: fo, Matcher: w.match.m, PrecertOnly: p.PrecertOnly, NumWorkers: p.NumWorkers, BufferSize: p.BufferSize})
-		s.Go(func() {
+		w.run = func() {
 			var err error
 			if p.UseScan {
 				err = w.scan.Scan(w.ctx, w.foundCert, w.foundPrecert)
@@ -277,10 +289,21 @@ func (w *World) Init(s *kernel.Sim) {
 				_, err = w.scan.ScanLog(w.ctx, w.foundCert, w.foundPrecert)
 			}
 			w.finish(err)
-		})
+		}
 	} else {
 		w.fetcher = scanner.NewFetcher(w.log, &fo)
-		s.Go(func() { w.finish(w.fetcher.Run(w.ctx, w.onBatch)) })
+		w.run = func() { w.finish(w.fetcher.Run(w.ctx, w.onBatch)) }
+	}
+	if !s.Timed { // timed mode: TimedRun starts it once the seam decisions are in place
+		s.Go(w.run)
+	}
+}
+
+// logf writes to the event log in stepped mode (driver goroutine only); timed
+// mode has no event log and many goroutines.
+func (w *World) logf(format string, a ...any) {
+	if !w.s.Timed {
+		w.s.Logf(format, a...)
 	}
 }
 
@@ -360,6 +383,9 @@ func (w *World) finish(err error) {
 	w.mu.Lock()
 	w.done, w.runErr = true, err
 	w.mu.Unlock()
+	if w.doneCh != nil {
+		close(w.doneCh)
+	}
 }
 
 func (w *World) onBatch(b scanner.EntryBatch) {
@@ -410,7 +436,7 @@ func (w *World) answerEntries(p *kernel.Parked, kind string, n int64) {
 		w.s.Fault("short")
 		w.s.Probe("short.served")
 	}
-	w.s.Logf("answer [%d,%d] -> %s %d entries (size %d)", r[0], r[1], kind, n, w.size)
+	w.logf("answer [%d,%d] -> %s %d entries (size %d)", r[0], r[1], kind, n, w.size)
 	w.s.Release(p, kernel.Decision{Kind: kind, N: n})
 }
 
@@ -426,7 +452,7 @@ func (w *World) answerSTH(p *kernel.Parked, kind string, size int64) {
 	if kind != "ok" {
 		w.s.Fault(kind)
 	}
-	w.s.Logf("sth -> %s size %d (published %d)", kind, size, w.size)
+	w.logf("sth -> %s size %d (published %d)", kind, size, w.size)
 	w.s.Release(p, kernel.Decision{Kind: kind, N: size})
 }
 
@@ -467,7 +493,7 @@ func (w *World) entryFault(p *kernel.Parked, n int64, gate bool) (kernel.Option,
 		}
 		w.lastAnswer[p.Digest] = kind
 		w.s.Fault(kind)
-		w.s.Logf("answer %s -> %s(%d)", p.Digest, kind, d.N)
+		w.logf("answer %s -> %s(%d)", p.Digest, kind, d.N)
 		w.s.Release(p, d)
 	}}, true
 }
@@ -495,7 +521,7 @@ func (w *World) sthFault(p *kernel.Parked) (kernel.Option, bool) {
 		}
 		d := kernel.Decision{Kind: []string{"http.429", "http.5xx", "net.err"}[t.Intn(3)], N: 503}
 		w.s.Fault("sth.err")
-		w.s.Logf("sth -> %s", d.Kind)
+		w.logf("sth -> %s", d.Kind)
 		w.s.Release(p, d)
 	}}, true
 }
@@ -520,13 +546,13 @@ func (w *World) doStop(why string) {
 		w.s.Probe("stop.early")
 	}
 	w.stopIssued = true
-	w.s.Logf("Fetcher.Stop() (%s)", why)
+	w.logf("Fetcher.Stop() (%s)", why)
 	w.fetcher.Stop()
 }
 
 func (w *World) doCancel(why string) {
 	w.cancelled = true
-	w.s.Logf("cancel context (%s)", why)
+	w.logf("cancel context (%s)", why)
 	w.cancel()
 }
 
@@ -615,7 +641,7 @@ func (w *World) Options(s *kernel.Sim) []kernel.Option {
 			w.size += k
 			w.growsLeft--
 			w.history = append(w.history, w.size)
-			s.Logf("log publishes %d more entries: size %d", k, w.size)
+			w.logf("log publishes %d more entries: size %d", k, w.size)
 		}})
 	}
 	if w.prof.AllowStop && !w.stopIssued {
@@ -683,7 +709,7 @@ func eqChain(got []ct.ASN1Cert, want [][]byte) bool {
 func (w *World) judgeDelivery(d delivery) {
 	s := w.s
 	if d.kind == 0 {
-		s.Logf("deliver batch start=%d n=%d", d.start, len(d.entries))
+		w.logf("deliver batch start=%d n=%d", d.start, len(d.entries))
 		s.Probe("cb.batch")
 		for i, e := range d.entries {
 			idx := d.start + int64(i)
@@ -712,7 +738,7 @@ func (w *World) judgeDelivery(d delivery) {
 		return
 	}
 	name := []string{"", "cert", "precert"}[d.kind]
-	s.Logf("deliver %s callback index=%d", name, d.start)
+	w.logf("deliver %s callback index=%d", name, d.start)
 	s.Probe("cb." + name)
 	idx := d.start
 	if !w.checkIndex(idx) {
@@ -824,7 +850,7 @@ func (w *World) judgeComplete(lo, hi int64, why string) {
 			return
 		}
 	}
-	s.Logf("complete: [%d,%d) %d indices judged (%s)", lo, hi, n, why)
+	w.logf("complete: [%d,%d) %d indices judged (%s)", lo, hi, n, why)
 }
 
 func (w *World) judgeDone() {
@@ -834,7 +860,7 @@ func (w *World) judgeDone() {
 	if w.runErr != nil {
 		errText = w.runErr.Error()
 	}
-	s.Logf("run returned err=%s delivered=%d", errText, w.nDelivered)
+	w.logf("run returned err=%s delivered=%d", errText, w.nDelivered)
 	switch {
 	case w.cancelled && !w.settleEnded:
 		s.Probe("run.cancelled")
@@ -887,7 +913,7 @@ func (w *World) AfterStep(s *kernel.Sim) {
 			continue
 		}
 		r := p.Info.([2]int64)
-		s.Logf("request GetRawEntries(%d,%d)", r[0], r[1])
+		w.logf("request GetRawEntries(%d,%d)", r[0], r[1])
 		switch w.lastAnswer[p.Digest] {
 		case "http.429":
 			s.Probe("retry.after429")
